@@ -87,7 +87,7 @@ BVerifyChoices(i) ==
 
 \* heartbeat, with the AutoForget delegate removing entries not refreshed for longer than the period
 Forgot(i) == IF cfg[i].forget > 0
-             THEN {j \in Inst : Present(j) /\ clock - ring[j].ts > cfg[i].forget}
+             THEN {j \in Inst : Present(j) /\ clock - ring[j].ts >= cfg[i].forget}
              ELSE {}
 
 BHeartbeat(i) ==
@@ -181,7 +181,7 @@ Handover(i, j)  == /\ Classic(i) /\ L[i].pc = "claim" /\ L[i].arg = ToString(j)
                    /\ Present(j) /\ ring'[j] = [ring[j] EXCEPT !.toks = {}]
                    /\ ring'[i].toks = ring[j].toks
 Forgotten(i, j) == /\ Basic(i) /\ cfg[i].forget > 0 /\ Present(j)
-                   /\ clock - ring[j].ts > cfg[i].forget /\ ring'[j] = Absent
+                   /\ clock - ring[j].ts >= cfg[i].forget /\ ring'[j] = Absent
 OwnEntryOnly ==
     [][\A i \in Inst : actor' = i =>
           \A j \in Inst \ {i} : ring'[j] = ring[j] \/ Handover(i, j) \/ Forgotten(i, j)]_vars
@@ -233,9 +233,9 @@ ReadyImpliesActive ==
     [][\A i \in Inst :
           /\ (L'[i].ready /\ ~L[i].ready) =>
                 /\ ring[i].st = "ACTIVE" /\ L[i].toks # {}
-                /\ cfg[i].health => \A j \in Inst : Present(j) => ring[j].st = "ACTIVE" /\ clock - ring[j].ts <= HbTimeout
+                /\ cfg[i].health => \A j \in Inst : Present(j) => ring[j].st = "ACTIVE" /\ clock - ring[j].ts < HbTimeout
           \* the latch: ready is only lost with the object (a new Start)
-          /\ (L[i].ready /\ ~L'[i].ready) => L'[i].phase \in {"init", "dead"}]_vars
+          /\ (L[i].ready /\ ~L'[i].ready) => (L'[i].phase \in {"init", "dead"} \/ L'[i] = L0)]_vars
 
 (***************************************************************************)
 (*                         C09 - what TLC decides                          *)
